@@ -125,6 +125,9 @@ META = dict(
 META["rule"] += (
     " " + "Added after the second round of seeded changes: family 'large dense' (a group of 135/160/270 nodes at density >= 0.97): count-valued cross / internal measures and the '_sparse' twins against int64 definitions.")
 
+META["rule"] += (
+    " " + 'Added after the third round: every fifth graph has zero-length links; a third of the objects have a past (other node weights and link attribute first, group measures queried); CoupledClimateNetwork sub-block accessors of the similarity, layer networks, cross link distances.')
+
 RT = 1e-10
 LW = "lw"
 
